@@ -29,6 +29,8 @@ REWRITES = {
     "R9": "`C.iter().rev()` over a const slice literal C -> external fn C_r2_rev() whose spec is the reversed literal (semantics of slice::iter().rev() trusted)",
     "R11": "`for x in [a, b] { BODY }` over an array literal -> unrolled blocks `{ let x = a; BODY } { let x = b; BODY }`",
     "R12": "`let v = RECV.and_then(|p| BODY);` -> `let v = match RECV { Some(p) => BODY, None => None };` (definition of Option::and_then; closures in argument position unsupported)",
+    "R13": "`x.extend(y);` with a Vec-valued place `y` (field / local) -> `vec_extend_owned(&mut x, y);` (Extend is generic over IntoIterator; semantics of Vec::extend(Vec) trusted: appends in order)",
+    "R14": "`a |= b;` on two bool places (b a field / local read) -> `a = a || b;` (Verus rejects `|` on bool)",
     "R10": "`a | b` on two bool places (field / local reads) -> `a || b` (Verus rejects `|` on bool)",
     "R8": "`impl Trait` / `impl Fn(..)` argument position and generic closures: `to_expr: impl Fn(&FieldEntry) -> TokenStream` kept; only if listed per function",
 }
@@ -332,6 +334,14 @@ def rw_R5(t):
     return re.subn(r'(\w+(?:\.\w+)*)\.extend\((\w+(?:\.\w+)*)\.iter\(\)\.cloned\(\)\)', r'vec_extend_cloned(&mut \1, &\2)', t)
 
 
+def rw_R13(t):
+    return re.subn(r'(?m)^(\s*)(\w+(?:\.\w+)*)\.extend\((\w+(?:\.\w+)*)\);', r'\1vec_extend_owned(&mut \2, \3);', t)
+
+
+def rw_R14(t):
+    return re.subn(r'(?m)^(\s*)([a-z_]\w*) \|= ([a-z_]\w*(?:\.[a-z_]\w*)*);', r'\1\2 = \2 || \3;', t)
+
+
 def rw_R12(t):
     """`let v = RECV.and_then(|p| BODY);` -> `let v = match RECV { Some(p) => BODY, None => None };` (the definition of Option::and_then;
     closures in argument position are outside the Verus attribute dialect)"""
@@ -359,7 +369,7 @@ def rw_vis(t):
     return re.subn(r'\bpub\((?:super|crate)\)\s+', 'pub ', t)
 
 
-RW = {"R12": rw_R12, "R11": rw_R11, "R10": rw_R10, "R9": rw_R9, "R1": rw_R1, "R3": rw_R3, "R4": rw_R4, "R5": rw_R5, "R2u": rw_R2_uses}
+RW = {"R13": rw_R13, "R14": rw_R14, "R12": rw_R12, "R11": rw_R11, "R10": rw_R10, "R9": rw_R9, "R1": rw_R1, "R3": rw_R3, "R4": rw_R4, "R5": rw_R5, "R2u": rw_R2_uses}
 
 
 def _occ(text, anchor, n):
@@ -416,7 +426,7 @@ class Unit:
                 i += 1
                 out.extend(self._fn(rel, path, subs, len(out) + 1))
             elif kind in ('struct', 'enum'):
-                out.extend(self._type(kind, parts[1], parts[2], len(out) + 1, noderive=('noderive' in parts[3:])))
+                out.extend(self._type(kind, parts[1], parts[2], len(out) + 1, noderive=('noderive' in parts[3:]), structural=('structural' in parts[3:])))
                 i += 1
             elif kind == 'constseq':
                 out.extend(self._constseq(parts[1], parts[2]))
@@ -499,7 +509,7 @@ class Unit:
         self.linemap.append((gen_line, gen_line + len(res), rel, S.line_of(a) - len(head), path))
         return res
 
-    def _type(self, kw, rel, name, gen_line, noderive=False):
+    def _type(self, kw, rel, name, gen_line, noderive=False, structural=False):
         S = src(rel)
         a, p, b = S.find_type(kw, name)
         text = S.text[p:b]     # attributes above dropped (R6)
@@ -518,6 +528,8 @@ class Unit:
             m = re.match(r'#\[derive\((.*)\)\]', dl)
             if m and not noderive:
                 keep += [x.strip() for x in m.group(1).split(',') if x.strip() in ('Copy', 'Clone', 'Eq', 'PartialEq')]
+        if structural and 'PartialEq' in keep:
+            keep.append('Structural')      # vstd marker: the derived `==` is structural equality (it is: derive(PartialEq) on a field-less enum)
         res = ["#[verus_verify]"] + (["#[derive(%s)]" % ", ".join(keep)] if keep else []) + ["pub " + text]
         self.items.append({"kind": kw, "file": rel, "path": name, "src_lines": [S.line_of(p), S.line_of(b)], "dropped_attrs": dropped})
         res = '\n'.join(res).split('\n')
